@@ -20,6 +20,9 @@ from .index import ClassInfo, FuncInfo, Index, ModuleInfo, Undecided, norm
 # --------------------------------------------------------------------------- values
 
 
+OPAQUE: Dict[str, tuple] = {}
+
+
 class Lin:
     """Linear form sum(coef[v]*v) + const, with the float evaluation tree attached."""
 
@@ -73,6 +76,138 @@ class Lin:
 
     def as_float(self):
         return Lin(self.coef, self.const, self.tree, True)
+
+    @staticmethod
+    def factors(name):
+        """A variable name is a monomial: factors joined by a top-level middle dot."""
+        out, depth, cur = [], 0, ""
+        for ch in name:
+            if ch in "([":
+                depth += 1
+            elif ch in ")]":
+                depth -= 1
+            if ch == "\u00b7" and depth == 0:
+                out.append(cur)
+                cur = ""
+            else:
+                cur += ch
+        out.append(cur)
+        return out
+
+    @staticmethod
+    def apply(fname, *args):
+        """An uninterpreted function of symbolic numbers: a fresh symbol named after its (canonical) arguments."""
+        name = "%s(%s)" % (fname, ", ".join(repr(a) for a in args))
+        OPAQUE[name] = (fname, args)
+        return Lin.var(name).as_float()
+
+    def subst(self, mapping):
+        """Replace symbols by symbols or numbers (e.g. by the representative of their class of equal values),
+        through monomials and uninterpreted applications."""
+        import math as _m
+
+        def factor(f):
+            if f in mapping:
+                r = mapping[f]
+                return Lin.var(r) if isinstance(r, str) else Lin.num(r)
+            if f in OPAQUE:
+                fname, args = OPAQUE[f]
+                args = [a.subst(mapping) for a in args]
+                if all(a.is_const() for a in args):
+                    try:
+                        if fname == "inv":
+                            return Lin.num(1 / args[0].const)
+                        return Lin.num(Fraction(getattr(_m, fname)(*[float(a.const) for a in args])))
+                    except (ValueError, ZeroDivisionError, OverflowError):
+                        pass
+                return Lin.apply(fname, *args)
+            return Lin.var(f)
+        out = Lin.num(self.const)
+        for a, va in self.coef.items():
+            term = Lin.num(va)
+            for f in Lin.factors(a):
+                term = term.times(factor(f))
+            out = out + term
+        return Lin(out.coef, out.const, None, self.is_float)
+
+    @staticmethod
+    def monomial(coef, factors):
+        """coef * product(factors) in normal form: a factor and its reciprocal cancel, two equal square roots give
+        their argument."""
+        res = Lin.num(coef)
+        fs = sorted(factors)
+        changed = True
+        while changed:
+            changed = False
+            for f in fs:
+                info = OPAQUE.get(f)
+                if info is None:
+                    continue
+                fname, args = info
+                if fname == "inv" and len(args[0].coef) == 1 and args[0].const == 0 and list(args[0].coef.values())[0] == 1 and list(args[0].coef)[0] in fs:
+                    fs.remove(f)
+                    fs.remove(list(args[0].coef)[0])
+                    changed = True
+                    break
+                if fname == "sqrt" and fs.count(f) >= 2:
+                    fs.remove(f)
+                    fs.remove(f)
+                    res = res.times(args[0])
+                    changed = True
+                    break
+        if not fs:
+            return res
+        return res.times(Lin({"\u00b7".join(fs): 1}, 0, None, True)) if not res.is_const() else Lin({"\u00b7".join(fs): res.const}, 0, None, True)
+
+    def times(self, o):
+        """Polynomial product: symbols stay uninterpreted, monomials are named canonically (sorted factors), so two
+        expressions are `same` exactly when they are equal as polynomials over the symbols."""
+        out = Lin.num(self.const * o.const)
+        for a, va in self.coef.items():
+            if o.const:
+                out = out + Lin({a: va * o.const})
+            for b, vb in o.coef.items():
+                fa, fb = Lin.factors(a), Lin.factors(b)
+                if any(f in OPAQUE for f in fa + fb):
+                    out = out + Lin.monomial(va * vb, fa + fb)
+                else:
+                    out = out + Lin({"\u00b7".join(sorted(fa + fb)): va * vb})
+        if self.const:
+            for b, vb in o.coef.items():
+                out = out + Lin({b: vb * self.const})
+        return Lin(out.coef, out.const, ("*", self.tree, o.tree), True)
+
+    def over(self, o):
+        """Quotient by a symbolic number: multiplication by its (uninterpreted) reciprocal."""
+        return self.times(Lin.apply("inv", o))
+
+    def evaluate(self, env):
+        """Float value under an assignment of the plain symbols; uninterpreted functions get their real meaning.
+        Raises ArithmeticError where that is undefined."""
+        import math as _m
+
+        def fac(f):
+            if f in env:
+                return float(env[f])
+            if f in OPAQUE:
+                fname, args = OPAQUE[f]
+                vs = [a.evaluate(env) for a in args]
+                try:
+                    if fname == "inv":
+                        return 1.0 / vs[0]
+                    if fname == "div":
+                        return vs[0] / vs[1]
+                    return getattr(_m, fname)(*vs)
+                except (ValueError, ZeroDivisionError, OverflowError) as ex:
+                    raise ArithmeticError(str(ex))
+            raise KeyError(f)
+        tot = float(self.const)
+        for m, c in self.coef.items():
+            v = float(c)
+            for f in Lin.factors(m):
+                v *= fac(f)
+            tot += v
+        return tot
 
     def same(self, o):
         return isinstance(o, Lin) and self.key() == o.key()
@@ -1720,6 +1855,17 @@ class Interp:
     def binop(self, op, a, b, node=None):
         if isinstance(a, SetVal) and isinstance(b, SetVal) and isinstance(op, (ast.BitAnd, ast.BitOr, ast.Sub, ast.BitXor)):
             return self._set_op({ast.BitAnd: "&", ast.BitOr: "|", ast.Sub: "-", ast.BitXor: "^"}[type(op)], a, b)
+        if isinstance(op, ast.Pow) and isinstance(a, Lin) and isinstance(b, Lin) and b.is_const() and b.const == Fraction(1, 2):
+            if not a.is_const():
+                return Lin.apply("sqrt", a)
+            if a.const >= 0:
+                import math as _m
+                return Lin.num(Fraction(_m.sqrt(float(a.const)))).as_float()
+        if isinstance(op, ast.Pow) and isinstance(a, Lin) and isinstance(b, Lin) and not a.is_const() and b.is_const() and b.const in (2, 3, 4):
+            r = a
+            for _ in range(int(b.const) - 1):
+                r = r.times(a)
+            return r
         if isinstance(op, ast.Pow) and isinstance(a, Lin) and isinstance(b, Lin) and a.is_const() and b.is_const() and b.const.denominator == 1 and abs(b.const) <= 64:
             try:
                 return Lin.num(a.const ** int(b.const))
@@ -1761,14 +1907,15 @@ class Interp:
             if x.is_const():
                 r = y.scale(x.const, ("*", x.tree, y.tree))
                 return r.as_float() if x.is_float else r
-            raise Undecided("product of two symbolic numbers")
+            # non-linear: a polynomial over the symbols, monomials named canonically
+            return x.times(y)
         if isinstance(op, ast.Div):
             x, y = self.num(a, node), self.num(b, node)
             if y.is_const():
                 if y.const == 0:
                     raise PyRaise("ZeroDivisionError", node)
                 return x.scale(1 / y.const, ("/", x.tree, y.tree)).as_float()
-            raise Undecided("division by a symbolic number")
+            return x.over(y)  # multiplication by an uninterpreted reciprocal
         if isinstance(op, ast.Mod) and isinstance(a, (str, Str)):
             if isinstance(a, str):
                 vals = b.items if isinstance(b, Tup) else [b]
@@ -2113,7 +2260,8 @@ class Interp:
                 return MockObj({"write": PyFunc(write)}, "file:" + path)
             if path not in vfs:
                 raise PyRaise("FileNotFoundError", node)
-            return MockObj({"read": PyFunc(lambda I_, path=path: vfs[path])}, "file:" + path)
+            return MockObj({"read": PyFunc(lambda I_, path=path: vfs[path]),
+                            "readlines": PyFunc(lambda I_, path=path: Lst(vfs[path].splitlines(True)))}, "file:" + path)
         if n in ("math.isclose",):
             return self.equal(args[0], args[1], node)
         if n in ("copy.deepcopy", "copy.copy"):
@@ -2369,6 +2517,37 @@ class Interp:
             return Tup(list(r)) if isinstance(r, tuple) else r
         if n == "os.path.join":
             return mkjoin("/", [a for a in args])  # symbolic component: kept as a term
+        if n == "math.fsum":
+            tot = Lin.num(0).as_float()
+            for x in self.iterate(args[0]):
+                tot = tot + self.num(x)
+            return tot.as_float()
+        if n in ("statistics.mean", "statistics.fmean", "statistics.pvariance", "statistics.pstdev", "statistics.variance", "statistics.stdev"):
+            xs_ = [self.num(x) for x in self.iterate(args[0])]
+            fn_ = n.split(".")[1]
+            need = 2 if fn_ in ("variance", "stdev") else 1
+            if len(xs_) < need:
+                raise PyRaise("StatisticsError", node)
+            tot = Lin.num(0)
+            for x in xs_:
+                tot = tot + x
+            mean_ = tot.scale(Fraction(1, len(xs_))).as_float()
+            if fn_ in ("mean", "fmean"):
+                return mean_
+            mu = args[1] if len(args) > 1 else kwargs.get("mu", kwargs.get("xbar"))
+            mu = mean_ if mu is None else self.num(mu)
+            ss = Lin.num(0)
+            for x in xs_:
+                ss = ss + (x - mu).times(x - mu)
+            var_ = ss.scale(Fraction(1, len(xs_) - (need - 1))).as_float()
+            if fn_.endswith("variance"):
+                return var_
+            if var_.is_const():
+                import math as _m
+                return Lin.num(Fraction(_m.sqrt(float(var_.const)))).as_float()
+            return Lin.apply("sqrt", var_)
+        if n in ("math.sqrt", "math.log10", "math.log", "math.exp") and len(args) == 1 and isinstance(args[0], Lin) and not args[0].is_const():
+            return Lin.apply(n.split(".")[1], args[0])  # uninterpreted
         if n in ("math.log10", "math.log", "math.log2", "math.sqrt", "math.sin", "math.cos", "math.exp") and all(isinstance(a, Lin) and a.is_const() for a in args):
             import math as _m
 
@@ -2719,6 +2898,11 @@ class Interp:
             cargs = [conc(a) for a in args]
             if m in ("index", "find", "rfind", "rindex", "count", "split", "rsplit", "partition", "rpartition") and cargs and isinstance(cargs[0], str) and _has_payload(recv):
                 self.__dict__.setdefault("scan_log", []).append((m, cargs[0], (self.__dict__.get("frames") or ["?"])[-1]))
+            if m == "encode" and all(isinstance(a, str) for a in cargs) and all(isinstance(v, str) for v in kwargs.values()):
+                try:
+                    return recv.encode(*cargs, **kwargs)
+                except (UnicodeError, LookupError) as ex:
+                    raise PyRaise(type(ex).__name__, node)
             if m in _PURE_STR_METHODS and all(isinstance(a, (str, int, tuple)) or a is None for a in cargs) and not kwargs:
                 try:
                     r = getattr(recv, m)(*cargs)
